@@ -11,11 +11,14 @@ AllSpecs == { [t |-> "none"] } \cup { [t |-> "name", n |-> n] : n \in 0 .. 8 }
             \cup { [t |-> "int", v |-> v] : v \in -1 .. 256 }
             \cup { [t |-> "rgb", r |-> r, g |-> g, b |-> b] : r \in -1 .. 6, g \in -1 .. 6, b \in -1 .. 6 }
             \cup { [t |-> "gray", n |-> n] : n \in -1 .. 25 }
+            \cup { [t |-> "bool", v |-> v] : v \in 0 .. 1 } \cup { [t |-> "float", v |-> v] : v \in {1, 7, 300} } \cup { [t |-> "obj"] }
+            \cup { [t |-> "rgbl", r |-> r, g |-> g, b |-> b] : r \in {-1, 0, 5}, g \in {0, 6}, b \in {2, 5} }
 Repr == { [t |-> "none"], [t |-> "name", n |-> 0], [t |-> "name", n |-> 7], [t |-> "name", n |-> 8],
           [t |-> "int", v |-> 0], [t |-> "int", v |-> 255], [t |-> "int", v |-> 256], [t |-> "int", v |-> -1],
           [t |-> "rgb", r |-> 0, g |-> 0, b |-> 0], [t |-> "rgb", r |-> 5, g |-> 5, b |-> 5],
           [t |-> "rgb", r |-> 1, g |-> 2, b |-> 3], [t |-> "rgb", r |-> 6, g |-> 0, b |-> 0],
-          [t |-> "gray", n |-> 0], [t |-> "gray", n |-> 23], [t |-> "gray", n |-> 24] }
+          [t |-> "gray", n |-> 0], [t |-> "gray", n |-> 23], [t |-> "gray", n |-> 24],
+          [t |-> "bool", v |-> 1], [t |-> "rgbl", r |-> 1, g |-> 2, b |-> 3], [t |-> "float", v |-> 7] }
 FewEff == { {} , EffNames } \cup { {e} : e \in EffNames }
 
 FgChoices == IF Sweep = "fg" THEN AllSpecs ELSE IF Sweep = "bg" THEN { [t |-> "none"] } ELSE Repr
